@@ -869,6 +869,14 @@ func (ex *Exec) instLemma(lm *Lemma, c *SpecCtx, args []ast.Expr) *Term {
 		cc.vars[p] = c.eval(args[i])
 	}
 	ex.usedLemmas[lm.Name] = true
+	// lemmas whose parameter sort is not determined by their body (fint is overloaded on F and Fn)
+	if want, ok := lemmaArgSort[lm.Name]; ok {
+		for _, p := range lm.Params {
+			if t, isT := cc.vars[p].(*Term); !isT || t.sort != want {
+				c.fail("lemma %s applied to an argument of the wrong field sort", lm.Name)
+			}
+		}
+	}
 	return cc.term(lm.Body)
 }
 
@@ -907,3 +915,5 @@ func (c *SpecCtx) guarded(e ast.Expr) (t *Term) {
 	}()
 	return c.term(e)
 }
+
+var lemmaArgSort = map[string]Sort{"fint_range": SF, "nint_range": SN}
